@@ -262,7 +262,8 @@ def _case(i):
         except NotAdmitted:
             res['status'] = 'reject:budget'
             return res
-        p = C.run_proc([C.HYEONG, 'debug', '--color', 'never', path], ('\n'.join(script) + '\n').encode() if script else b'', cpu=20)
+        eol = '\r\n' if rng.random() < 0.1 else '\n'
+        p = C.run_proc([C.HYEONG, 'debug', '--color', 'never', path], (eol.join(script) + eol).encode() if script else b'', cpu=20)
         res['hist'] = stats
         info = {'program': text, 'script': script, 'source': name,
                 'replay': "printf '%%s\\n' <script lines> | %s debug --color never FILE" % C.HYEONG}
@@ -314,7 +315,7 @@ def main(tier, seed):
     t0 = time.time()
     rep = C.Reporter(PID, tier, seed)
     C.build(['repo'])
-    n = 5000 if tier == 'quick' else 40000
+    n = 5000 if tier == 'quick' else 200000
     rundir = C.mktmp(PID)
     _RUN.update(tier=tier, seed=seed, dir=rundir)
     results = C.pmap(_case, list(range(n)), chunksize=4, stop_after_bad=40,
